@@ -99,6 +99,26 @@ func randExprText(r *rand.Rand, depth, k int) string {
 	return b.String()
 }
 
+// genErrPos: texts that end early or carry a stray token at every kind of place (statement prefixes cut after
+// each token, a lone operator character at the end, after FROM, after a comma, after =~), plus the expression
+// generator's cases.
+func genErrPos(r *rand.Rand, n int, emit func(args ...string)) {
+	none := map[string]interface{}{}
+	bases := []string{"SELECT mean(x) FROM m WHERE y =~ z AND t > now() - 1h GROUP BY time(1m), host fill(none) ORDER BY time DESC LIMIT 1",
+		"SELECT x FROM a, b", "DELETE FROM m WHERE a = 1", "SHOW TAG VALUES WITH KEY =~ k", "SHOW TAG VALUES WITH KEY IN (a, b)", "DROP SERIES FROM m",
+		"CREATE RETENTION POLICY p ON d DURATION 1h REPLICATION 1", "a + b * (c - 1)", "f(a, b)", "a =~ b"}
+	for _, b := range bases {
+		words := strings.Fields(b)
+		for i := 1; i <= len(words); i++ {
+			prefix := strings.Join(words[:i], " ")
+			for _, tail := range []string{"", " -", " +", " *", " )", " (", " ,", " ;", " !", " =", "\n-", " - ", " 'x", " \"y"} {
+				emit(exprCase(prefix+tail, none)...)
+			}
+		}
+	}
+	genParseExpr(r, n, emit)
+}
+
 func genParseExpr(r *rand.Rand, n int, emit func(args ...string)) {
 	none := map[string]interface{}{}
 	for _, s := range []string{"", "a", "a + b", "a + b * c", "a * b + c", "(a + b) * c", "a = 1 AND b = 2 OR c = 3", "a OR b AND c", "b / -a", "-a * b", "- - a", "-(-a)", "-1", "- 1", "-9223372036854775808", "-9223372036854775809", "-18446744073709551616", "a =~ /x/", "a =~ b", "a !~ /x", "a =~ /[/", "f()", "f(", "f(a,)", "f(a b)", "f (a)", "now() - 1h", "a.b.c.d", "*::tag", "DISTINCT", "1.5.2", "10s / 0.5", "-1.0", "-0.0", "- .5", "+a", "a AND", "AND", ")", "(", "(a", "a)", "1 2", "'x' 'y'", "a::", "$p", "$", "a = $p", "a =~ $r", "\"a\"(x)", "1e5", "99999999999999999999999999999999999999999999999999999999999999999999999999999999999999999999999999999999999999999999999999999999999999999999999999999999999999999999999999999999999999999999999999999999999999999999999999999999999999999999999999999999999999999999999999999999999999999999999999999999999999999999999.0"} {
@@ -285,6 +305,49 @@ func applyParams(p *influxql.Parser, text string, params map[string]interface{})
 	if len(params) > 0 {
 		p.SetParams(params)
 	}
+}
+
+// propErrPos (C05, "the line and column quoted in every parse error is … that token's first character"): the
+// position of a parse error is the position of one of the tokens of the text, as a scanner run over the whole
+// text places them (scan.ops judges those positions against an independent line/column count), the end of input
+// included. Texts with a `/` are left out: a regex literal is one token for the parser and several for a plain scan.
+func propErrPos(args []string) string {
+	text, err := decStr(args[0])
+	if err != nil || strings.Contains(text, "/") {
+		return "skip"
+	}
+	params, err := decParams(args[1])
+	if err != nil || len(params) > 0 {
+		return "skip"
+	}
+	starts := map[influxql.Pos]bool{}
+	sc := influxql.NewScanner(strings.NewReader(text))
+	for i := 0; i < len(text)+8; i++ {
+		tok, pos, _ := sc.Scan()
+		starts[pos] = true
+		if tok == influxql.EOF {
+			break
+		}
+	}
+	check := func(what string, perr error) string {
+		pe, ok := perr.(*influxql.ParseError)
+		if !ok || pe == nil || (pe.Pos == influxql.Pos{} && pe.Message != "") {
+			return ""
+		}
+		if pe.Found == "EOF" {
+			return "" // the end of input is no character of the text; the reader counts it once more after a peek (recorded in notes/C05.md)
+		}
+		if !starts[pe.Pos] {
+			return fmt.Sprintf("%s(%q) fails with %q: line %d, char %d (zero-based) is not where a token of the text starts", what, text, perr.Error(), pe.Pos.Line, pe.Pos.Char)
+		}
+		return ""
+	}
+	_, e1 := influxql.NewParser(strings.NewReader(text)).ParseExpr()
+	if m := check("ParseExpr", e1); m != "" {
+		return m
+	}
+	_, e2 := influxql.NewParser(strings.NewReader(text)).ParseQuery()
+	return check("ParseQuery", e2)
 }
 
 func isOracleError(err error) bool {
@@ -606,6 +669,9 @@ func init() {
 	register(&stream{name: "parse.chain", gen: genParseExpr, impl: implParseExpr, prop: propParseChain,
 		class:      func(args []string, out string) string { return out[:2] },
 		nontrivial: func(args []string, out string) bool { return strings.Count(args[0], ",") >= 3 }})
+	register(&stream{name: "parse.errpos", gen: genErrPos, impl: implParseExpr, prop: propErrPos,
+		class:      func(args []string, out string) string { return out[:2] },
+		nontrivial: func(args []string, out string) bool { return strings.HasPrefix(out, "err") }})
 	register(&stream{name: "parse.expr", gen: genParseExpr, impl: implParseExpr, prop: propParseExpr, known: knownParseExpr,
 		class: func(args []string, out string) string {
 			switch {
